@@ -124,15 +124,15 @@ func init() {
 	props["C01"] = &propDef{Level: "exploration", Rule: ruleExpl + "at least one successful mutation by a library instance", Assume: base,
 		Plan: func(t string) []PlanItem { return generalPlan(t, true) }}
 	props["C05"] = &propDef{Level: "exploration", Rule: ruleExpl + "at least two acquisition writes (two terms) in the store log", Assume: base,
-		Plan: func(t string) []PlanItem { return generalPlan(t, true) }}
+		Plan: func(t string) []PlanItem { return append(generalPlan(t, true), finePlan("C05", t)...) }}
 	props["C07"] = &propDef{Level: "exploration", Rule: ruleExpl + "some instance was promoted", Assume: base,
 		Plan: func(t string) []PlanItem { return generalPlan(t, false) }}
 	props["C08"] = &propDef{Level: "exploration", Rule: ruleExpl + "a promotion callback ran", Assume: base,
-		Plan: func(t string) []PlanItem { return generalPlan(t, true) }}
+		Plan: func(t string) []PlanItem { return append(generalPlan(t, true), finePlan("C08", t)...) }}
 	props["C09"] = &propDef{Level: "exploration", Rule: ruleExpl + "a stop call returned", Assume: base,
-		Plan: func(t string) []PlanItem { return generalPlan(t, false) }}
+		Plan: func(t string) []PlanItem { return append(generalPlan(t, false), finePlan("C09", t)...) }}
 	props["C18"] = &propDef{Level: "exploration", Rule: ruleExpl + "a Status() snapshot was taken", Assume: base,
-		Plan: func(t string) []PlanItem { return generalPlan(t, true) }}
+		Plan: func(t string) []PlanItem { return append(generalPlan(t, true), finePlan("C18", t)...) }}
 	props["C19"] = &propDef{Level: "exploration", Rule: ruleExpl + "a promotion callback received a context", Assume: base,
-		Plan: func(t string) []PlanItem { return generalPlan(t, true) }}
+		Plan: func(t string) []PlanItem { return append(generalPlan(t, true), finePlan("C19", t)...) }}
 }
